@@ -469,7 +469,7 @@ pub fn property() -> Property {
     Property {
         id: "C01",
         level: "exploration",
-        rule: "histories of 2..3 (thorough 4) author replicas with distinct generated client ids and generated GC/offset configuration, 4..24 (thorough 40) steps (local transactions of 1..3 ops of every kind on root and nested types; deliveries, duplicates, merges in transit, state-vector syncs in between), then every author and two passive observers receive all updates under their own generated schedule (permutation x duplication x merge groups x diff_updates x v1/v2 per delivery); for <=5 updates every permutation is tried.  Oracle: nothing pending, state vector = join, canonical dump equal to a reference replica that applied the updates in emission order.  Non-trivial = >=2 updates of different authors are concurrent and at least one receiver's schedule is not a causal order; distinct = distinct generated case".into(),
+        rule: "histories of 2..3 (thorough 4) author replicas with distinct generated client ids and generated GC/offset configuration, 4..24 (thorough 40) steps (local transactions of 1..3 ops of every kind on root and nested types; deliveries, duplicates, merges in transit, state-vector syncs in between), then every author and two passive observers receive all updates under their own generated schedule (permutation x duplication x merge groups x diff_updates x v1/v2 per delivery); for <=5 updates every permutation is tried.  Oracle: nothing pending, state vector = join, canonical dump equal to a reference replica that applied the updates in emission order.  At the end every replica must also list (subdoc_guids) exactly the sub-documents its shared types reference.  Non-trivial = >=2 updates of different authors are concurrent and at least one receiver's schedule is not a causal order; distinct = distinct generated case".into(),
         assumptions: vec![
             "all replicas of the strict clause run with cleanup_formatting=false (a replica with automatic clean-up makes changes of its own, see DESIGN section 7)".into(),
             "equality is the canonical dump through the public read API".into(),
